@@ -501,7 +501,7 @@ theorem pseudoLegal_sym (T : Sym) (p : Pos) (hok : T.Ok p) (m : Move) :
 
 
 /-! ### successor position -/
-theorem _root_.Chess.Pos.ext' {p q : Pos} (hb : ∀ s, p.board s = q.board s) (hs : p.stm = q.stm)
+theorem _root_.Chess.Pos.ext_pointwise {p q : Pos} (hb : ∀ s, p.board s = q.board s) (hs : p.stm = q.stm)
     (hk : ∀ c, p.castleK c = q.castleK c) (hq : ∀ c, p.castleQ c = q.castleQ c) (he : p.ep = q.ep) : p = q := by
   rcases p with ⟨b1, s1, k1, q1, e1⟩; rcases q with ⟨b2, s2, k2, q2, e2⟩
   simp only at hb hs hk hq he
@@ -597,7 +597,7 @@ theorem touched_sym (T : Sym) (m : Move) (x : Option Sq) : touched (T.mv m) (x.m
 
 theorem apply_sym (T : Sym) (p : Pos) (hok : T.Ok p) (m : Move) (h : T.ff = true → isCastle p m = false) :
     T.pos (apply p m) = apply (T.pos p) (T.mv m) := by
-  apply Pos.ext'
+  apply Pos.ext_pointwise
   · intro s
     have e : s = T.sq (T.sq s) := by simp
     generalize T.sq s = t at e; subst e
@@ -855,7 +855,7 @@ theorem _root_.Chess.epValid_eq (p : Pos) : epValid p =
   unfold epValid epBack; rfl
 
 theorem epBack_sym (T : Sym) (p : Pos) (q org : Sq) : T.pos (epBack p q org) = epBack (T.pos p) (T.sq q) (T.sq org) := by
-  apply Pos.ext'
+  apply Pos.ext_pointwise
   · intro s
     have e : s = T.sq (T.sq s) := by simp
     generalize T.sq s = t at e; subst e
@@ -989,7 +989,7 @@ theorem normKeep_sym (T : Sym) (p : Pos) (q : Sq) : normKeep (T.pos p) (T.sq q) 
   simp only [natAbs_file_sub, pos_stm, pos_has, this]
 
 theorem norm_sym (T : Sym) (p : Pos) : T.pos (norm p) = norm (T.pos p) := by
-  apply Pos.ext'
+  apply Pos.ext_pointwise
   · intro s; rfl
   · rfl
   · intro c; rfl
@@ -1018,7 +1018,7 @@ theorem flip_mv (m : Move) : m.flipFile = flip.mv m := rfl
 theorem mirror_col (c : Color) : c.other = mirror.col c := rfl
 theorem flip_col (c : Color) : c = flip.col c := rfl
 theorem mirror_pos (p : Pos) : p.mirror = mirror.pos p := by
-  apply Pos.ext'
+  apply Pos.ext_pointwise
   · intro s
     show (p.board s.mirror).map _ = (p.board s.mirror).map _
     cases p.board s.mirror with
@@ -1029,7 +1029,7 @@ theorem mirror_pos (p : Pos) : p.mirror = mirror.pos p := by
   · intro c; rfl
   · rfl
 theorem flip_pos (p : Pos) : p.flipFiles = flip.pos p := by
-  apply Pos.ext'
+  apply Pos.ext_pointwise
   · intro s
     show p.board s.flipFile = (p.board s.flipFile).map _
     cases p.board s.flipFile with
